@@ -104,14 +104,18 @@ def run(tier, seed):
             if key not in table:
                 continue
             r = table[key]
-            if r[0] != 'ok' or prefs[k] is None or prefs[k + 1] is None:
+            # a prefix that ends with a block header does not parse (a block needs a sentence): fall back to the prefix before the header(s)
+            j = k
+            while j > 0 and prefs[j] is None and ss[j - 1].endswith(':'):
+                j -= 1
+            if r[0] != 'ok' or prefs[j] is None or prefs[k + 1] is None:
                 st['removals_not_removable'] += 1
                 continue
             if stab.get((si, 'full', None)) != stab.get(key) or const_lines(r[1]) != const_lines(full[1]):
                 st['removals_not_removable'] += 1       # the sentence introduces a signature or a constant
                 continue
-            block = prefs[k + 1][len(prefs[k]):]
-            expected = prefs[k] + fl[len(prefs[k + 1]):]
+            block = prefs[k + 1][len(prefs[j]):]
+            expected = prefs[j] + fl[len(prefs[k + 1]):]
             st['removals_scored'] += 1
             got = rule_lines(r[1])
             # '#program' directives: removing the only sentence of a block makes the block (and its directive) disappear from the grammar's point of view
